@@ -234,16 +234,20 @@ Fixpoint ref_run (s : ref) (ops : list iop) : ref * list ires :=
 (* --- concurrency: the two critical sections of AddUser ----------------- *)
 
 (* Every call except AddUser is one critical section under one lock.  AddUser
-   reads the group under grpMu (section 1), releases it, then inserts the user
-   under usrMu (section 2).  A thread is a list of calls; [cstep] runs the next
-   critical section of thread [t]. *)
-Inductive pend := PNone | PAddUser (n : str) (g : grp).
+   takes grpMu.RLock and looks its group up (section 1); KEEPING that read lock it
+   takes usrMu.Lock, re-checks the name and inserts the user (section 2), then
+   releases both (lock order grpMu -> usrMu; no other method nests the two).  A
+   thread is a list of calls; [cstep] runs the next critical section of thread [t].
+   While some thread is between the two sections of an AddUser it holds grpMu for
+   reading: a section that needs grpMu for writing (AddGroup, DelGroup) is then
+   blocked - [cstep] on it is a stutter, as in the scheduler of the harness. *)
+Inductive pend := PNone | PAddUser (n gn : str) (g : grp).
 
 Record cthread := { t_todo : list iop; t_pend : pend; t_out : list ires }.
 
 Definition thread_step (s : idm) (t : cthread) : idm * cthread :=
   match t_pend t with
-  | PAddUser n g =>
+  | PAddUser n _ g =>
       let (s', r) := add_user_sec2 s n g in
       (s', {| t_todo := t_todo t; t_pend := PNone; t_out := t_out t ++ [r] |})
   | PNone =>
@@ -253,13 +257,26 @@ Definition thread_step (s : idm) (t : cthread) : idm * cthread :=
           match lookup_group s gn with
           | None => (s, {| t_todo := rest; t_pend := PNone;
                            t_out := t_out t ++ [RErr (UnknownGroup gn)] |})
-          | Some g => (s, {| t_todo := rest; t_pend := PAddUser n g; t_out := t_out t |})
+          | Some g => (s, {| t_todo := rest; t_pend := PAddUser n gn g; t_out := t_out t |})
           end
       | o :: rest =>
           let (s', r) := idm_step s o in
           (s', {| t_todo := rest; t_pend := PNone; t_out := t_out t ++ [r] |})
       end
   end.
+
+(* between the two sections of AddUser: grpMu is held for reading *)
+Definition holds_grp (t : cthread) : bool :=
+  match t_pend t with PAddUser _ _ _ => true | PNone => false end.
+
+(* the next section needs grpMu for writing *)
+Definition wants_grp_w (t : cthread) : bool :=
+  match t_pend t, t_todo t with
+  | PNone, AddGroup _ :: _ | PNone, DelGroup _ :: _ => true
+  | _, _ => false
+  end.
+
+Definition blocked (ths : list cthread) (t : cthread) : bool := wants_grp_w t && existsb holds_grp ths.
 
 Fixpoint upd_nth {A} (l : list A) (i : nat) (x : A) : list A :=
   match l, i with
@@ -271,7 +288,9 @@ Fixpoint upd_nth {A} (l : list A) (i : nat) (x : A) : list A :=
 Definition cstep (st : idm * list cthread) (i : nat) : idm * list cthread :=
   match nth_error (snd st) i with
   | None => st
-  | Some t => let (s', t') := thread_step (fst st) t in (s', upd_nth (snd st) i t')
+  | Some t =>
+      if blocked (snd st) t then st
+      else let (s', t') := thread_step (fst st) t in (s', upd_nth (snd st) i t')
   end.
 
 Definition crun (st : idm * list cthread) (sched : list nat) : idm * list cthread :=
